@@ -818,7 +818,12 @@ def generate(rng: random.Random, profile: Optional[Dict[str, Any]] = None) -> Di
     n_ops = rng.randint(6, 28)
     n_focus = rng.randint(2, 5)
     names_only = [n for n, _ in rule_names]
-    focus_e = [gen.pick_entry(rng, corpus, names_only) for _ in range(n_focus)]
+    if profile.get("generated"):
+        # focus on generated modules (incl. the special blocks: equal-count over-used constants,
+        # process-dependent constant expressions, several spellings of one string)
+        focus_e = [(gen.gen_module(rng, process_dependent=rng.random() < 0.4, special=True), None) for _ in range(n_focus)]
+    else:
+        focus_e = [gen.pick_entry(rng, corpus, names_only) for _ in range(n_focus)]
     focus = [t for t, _ in focus_e]
     focus_rule = {t: r for t, r in focus_e if r}
     takes_preserve = {n: tp for n, (_f, tp) in rule_names}
@@ -915,7 +920,12 @@ def generate_sweep(rng: random.Random, index: int, of: int) -> Dict[str, Any]:
     corp = gen.corpus()
     rule_names = list(R.harvest())
     ops: List[Dict[str, Any]] = []
-    for entry in corp[index::of]:
+    # two sweeps over the corpus: even indices with unbounded caches (a poisoned entry can never be
+    # evicted before the repeat arrives), odd indices with the shipped sizes and eviction pressure
+    # between the repeats (caches with different life times meet)
+    half = max(1, of // 2)
+    knobs = "unbounded" if index % 2 == 0 else "default"
+    for entry in corp[index // 2 :: half]:
         x = entry["source"]
         r = gen.origin_rule(entry, rule_names)
         variants = [x]
@@ -928,9 +938,13 @@ def generate_sweep(rng: random.Random, index: int, of: int) -> Dict[str, Any]:
                 ops.append({"op": "RULE", "rule": r, "x": v})
             ops.append({"op": "FMT", "x": v})
             ops.append({"op": "FMT", "x": v})
+            if knobs == "default":
+                ops.append({"op": "EVICT", "k": 120, "tag": len(ops)})
             if r:
                 ops.append({"op": "RULE", "rule": r, "x": v})
-    return {"engine": "e2", "knobs": rng.choice(["unbounded", "unbounded", "default"]), "ops": ops}
+            if knobs == "default":
+                ops.append({"op": "FMT", "x": v})
+    return {"engine": "e2", "knobs": knobs, "ops": ops}
 
 
 def generate_chains(rng: random.Random, profile: Dict[str, Any]) -> Dict[str, Any]:
